@@ -59,6 +59,8 @@ type cenv struct {
 	ops   []cop
 	vid   atomic.Int64
 	dir   string
+	// forceKey: every published message gets this key (tailing ConsumeByKey runs: each publish concerns the tailers)
+	forceKey string
 }
 
 // prepLog builds a small multi-segment log with holes.
@@ -116,7 +118,11 @@ func (e *cenv) batch(n int, rng *rand.Rand) []klevdb.Message {
 		e.mu.Lock()
 		e.x.vals[string(v)] = id
 		e.mu.Unlock()
-		b = append(b, klevdb.Message{Key: keyBytes[concKeys[rng.Intn(len(concKeys))]], Value: v}) // zero time: assigned under the writer lock
+		k := concKeys[rng.Intn(len(concKeys))]
+		if e.forceKey != "" {
+			k = e.forceKey
+		}
+		b = append(b, klevdb.Message{Key: keyBytes[k], Value: v}) // zero time: assigned under the writer lock
 	}
 	return b
 }
@@ -389,6 +395,12 @@ func tailRun(id int, seed int64, root string) (*chist, error) {
 	C := 2 + rng.Intn(2)
 	NP := 9 + rng.Intn(6)
 	per := (58 - NP) / C
+	// every other tail run follows one key: all publishes carry it, all consumers use ConsumeByKey
+	tailKey := ""
+	if id%2 == 0 {
+		tailKey = concKeys[rng.Intn(len(concKeys))]
+		e.forceKey = tailKey
+	}
 	var pubSeq atomic.Int64
 	var done atomic.Bool
 	var wg sync.WaitGroup
@@ -398,8 +410,8 @@ func tailRun(id int, seed int64, root string) (*chist, error) {
 		go func(p int) {
 			defer wg.Done()
 			off := init.Next
-			byKey := p == C && id%3 == 0
-			key := concKeys[prng.Intn(len(concKeys))]
+			byKey := tailKey != ""
+			key := tailKey
 			seen := int64(0)
 			for i := 0; i < per; i++ {
 				for pubSeq.Load() == seen && !done.Load() {
@@ -737,7 +749,7 @@ func c08Worker(args []string) int {
 		var h *chist
 		var err error
 		fmt.Fprintf(os.Stderr, "C08-HIST %d\n", i)
-		if i < nfree && i%3 == 2 {
+		if i < nfree && i%3 != 0 {
 			h, err = tailRun(i, seed, root)
 		} else if i < nfree {
 			h, err = freeRun(i, seed, root)
@@ -815,7 +827,7 @@ func runC08(r *SeqRun) {
 		r.infra("c08: race-detector build of the harness not found (%s)", race)
 		return
 	}
-	nfree, nplace := tierN(r.Tier, 500, 50000), tierN(r.Tier, 2400, 200000)
+	nfree, nplace := tierN(r.Tier, 1500, 90000), tierN(r.Tier, 2400, 200000) // two thirds of the free runs are tailing-consumer runs
 	nshards := 14
 	schedFile := filepath.Join(r.Scratch, "conc-schedules.json")
 	if scheds, nstates, err := concSchedulesFromSpec("concgen_q.cfg", r.Scratch, 20*time.Minute); err != nil {
